@@ -253,6 +253,15 @@ def extra_cases(S, tier):
         ("count-without-selector", [flat2], (("level", (("mux_count", 2), big)),)),
     ):
         cases.append(("big-endian-odd-muxed:" + label, 64, decl_list + [("impl", "can", "Msg", None, (("id", 2), ("device", "ecu")), sig)]))
+    # (d) messages over 64 bits whose excess lies in byte-aligned BIG-endian fields (a size check that is only
+    # applied on the little-endian path would let them through)
+    for widths, bigs in (((64, 8), (1,)), ((32, 32, 8), (2,)), ((32, 32, 16), (1, 2)), ((64, 32, 32), (1, 2)), ((8, 64), (1,)), ((64, 8), (0, 1)), ((32, 16, 16, 8), (3,))):
+        decl = ("struct", "Msg", tuple(("f%d" % i, i, U(w), None, None) for i, w in enumerate(widths)))
+        sig = tuple(("f%d" % i, (big,)) for i in bigs)
+        cases.append(("oversize-big-endian", sum(widths), [decl, ("impl", "can", "Msg", None, (("id", 2), ("device", "ecu")), sig)]))
+    inner = ("struct", "In", (("a", 0, U(32), None, None), ("b", 1, U(16), None, None)))
+    outer = ("struct", "Msg", (("h", 0, U(32), None, None), ("n", 1, ("ref", "In"), None, None)))
+    cases.append(("oversize-big-endian", 80, [inner, outer, ("impl", "can", "Msg", None, (("id", 2), ("device", "ecu")), (("b", (big,)),))]))
     for kind, bits, decls in cases:
         text = print_schema(decls)
         fcp = get_fcp_from_string(text, Logger({})).unwrap()
